@@ -62,6 +62,11 @@ def one(rec, pyc, wr, exe, buf, load_module, write_bytecode_file, obs_value):
     try:
         with contextlib.redirect_stdout(buf), contextlib.redirect_stderr(buf):
             t = load_module(pyc)
+    except Exception as e:
+        rec["load_error"] = type(e).__name__ + ": " + str(e)[:200]
+        return
+    try:
+        with contextlib.redirect_stdout(buf), contextlib.redirect_stderr(buf):
             vt = tuple(t[0][:2])
             rec["version"] = list(vt)
             write_bytecode_file(wr, t[3], t[2], compilation_ts=1234567, filesize=99)
@@ -112,15 +117,16 @@ def main():
                 out.append(rec)
                 # the same payload under the magic PyPy of that level writes (no PyPy here: same code-object layout, another magic):
                 # whatever the writer decides from the magic NUMBER must hold for these too
-                pm = {"3.8": 256, "3.9": 336, "3.10": 384}.get(ver)
-                if pm and name in ("funcs", "posonly") and "written" in rec:
-                    twin = os.path.join(d, "%s-%s-pypytwin.pyc" % (name, ver)); wr2 = os.path.join(d, "%s-%s-pypytwin-w.pyc" % (name, ver))
-                    data = open(pyc, "rb").read()
-                    with open(twin, "wb") as f:
-                        f.write(bytes([pm & 255, pm >> 8]) + data[2:])
-                    rec2 = {"target": "corpus", "source": "pypy-magic-twin-%s/%s" % (ver, name)}
-                    one(rec2, twin, wr2, None, buf, load_module, write_bytecode_file, obs_value)
-                    out.append(rec2)
+                # 3.8 also: the pre-release magics 3410 and 3411, which already store co_posonlyargcount (PEP 570 came with 3410)
+                for pm in {"3.8": (256, 3410, 3411), "3.9": (336,), "3.10": (384,)}.get(ver, ()):
+                    if name in ("funcs", "posonly") and "written" in rec:
+                        twin = os.path.join(d, "%s-%s-twin%d.pyc" % (name, ver, pm)); wr2 = os.path.join(d, "%s-%s-twin%d-w.pyc" % (name, ver, pm))
+                        data = open(pyc, "rb").read()
+                        with open(twin, "wb") as f:
+                            f.write(bytes([pm & 255, pm >> 8]) + data[2:])
+                        rec2 = {"target": "corpus", "source": "magic-twin-%d-of-%s/%s" % (pm, ver, name)}
+                        one(rec2, twin, wr2, None, buf, load_module, write_bytecode_file, obs_value)
+                        out.append(rec2)
         # bytecode files of the repository's corpus (versions with no interpreter here included): written back, re-read by xdis,
         # payload compared with the writer model inside Coq
         for i, path in enumerate(req.get("corpus", [])):
